@@ -520,7 +520,7 @@ def build_unit(unit_dir, out_path, units_dir=None, canary=None):
     for inc in spec.get('include', []):
         out.append(expand_contracts(open(os.path.join(units_dir, inc)).read(), inc))
         out.append('\n')
-    out.append(rd('prelude.rs'))
+    out.append(expand_contracts(rd('prelude.rs'), 'prelude.rs'))
     out.append('\n')
     linemap = []
     outer_items = []
